@@ -18,7 +18,9 @@ func (c *TableHead) WriteHTMLTo(w io.Writer) (int64, error) {
 	n := appendString(w, `<thead><tr>`)
 
 	for _, column := range c.columns {
-		n += appendSprintf(w, `<th scope="col">%s</th>`, column)
+		n += appendString(w, `<th scope="col">`)
+		n += appendComponent(w, NewText(column))
+		n += appendString(w, `</th>`)
 	}
 
 	n += appendString(w, `</tr></thead>`)
